@@ -1,7 +1,10 @@
 package main
 
 import (
+	"encoding/json"
 	"flag"
+	"os/exec"
+	"sync"
 	"fmt"
 	"os"
 	"path/filepath"
@@ -145,6 +148,9 @@ func runProp(pid, repo, verif, tier string, seed int, configs [][2]string, findi
 	}
 	ri := zv.RunInfo{Tier: tier, Seed: seed, Start: start, VerifDir: verif, Configs: cfgNames,
 		Explanation: prop.Explanation, Assumptions: prop.Assumptions}
+	if tier == "thorough" && os.Getenv("ZAPVERIF_NO_SELFTEST") == "" {
+		ri.Extra = selftest(pid, repo, verif)
+	}
 	return merged.Finish(ri, findings)
 }
 
@@ -182,4 +188,112 @@ func cmdDump(args []string) {
 			fmt.Printf("  block %d guards: %v\n", b.Index, g)
 		}
 	}
+}
+
+// selftest (thorough tier): every catalogued breaking change that this
+// property's check is recorded to catch (seeded/matrix.json: sub-agent seeds
+// and reverse fix patches) is applied to a scratch COPY of the repository
+// (never to /repo) and the check is re-run on the copy in a child process;
+// it must report a VIOLATION there. Patches that no longer apply to the
+// current tree are skipped. Results go into the evidence; a miss is reported
+// but does not change the verdict on /repo.
+func selftest(pid, repo, verif string) map[string]any {
+	res := map[string]any{}
+	b, err := os.ReadFile(filepath.Join(verif, "seeded", "matrix.json"))
+	if err != nil {
+		res["selftest"] = "seeded/matrix.json not found"
+		return res
+	}
+	var matrix map[string]struct {
+		Violation []string `json:"violation"`
+	}
+	if json.Unmarshal(b, &matrix) != nil {
+		res["selftest"] = "cannot parse matrix.json"
+		return res
+	}
+	var names []string
+	for n, r := range matrix {
+		for _, v := range r.Violation {
+			if v == pid {
+				names = append(names, n)
+			}
+		}
+	}
+	sort.Strings(names)
+	exe, _ := os.Executable()
+	type out struct {
+		name, status string
+	}
+	results := make([]out, len(names))
+	sem := make(chan struct{}, 8)
+	var wg sync.WaitGroup
+	for i, n := range names {
+		wg.Add(1)
+		go func(i int, n string) {
+			defer wg.Done()
+			sem <- struct{}{}
+			defer func() { <-sem }()
+			patch := filepath.Join(verif, "seeded", n, "patch.diff")
+			if strings.HasPrefix(n, "revert-") {
+				patch = filepath.Join(verif, "mutants", n+".patch")
+			}
+			tmp, err := os.MkdirTemp("", "zapverif-selftest-")
+			if err != nil {
+				results[i] = out{n, "error: " + err.Error()}
+				return
+			}
+			defer os.RemoveAll(tmp)
+			cp := exec.Command("cp", "-r", repo, filepath.Join(tmp, "repo"))
+			if err := cp.Run(); err != nil {
+				results[i] = out{n, "error: copy failed"}
+				return
+			}
+			scratch := filepath.Join(tmp, "repo")
+			os.RemoveAll(filepath.Join(scratch, ".git"))
+			ap := exec.Command("git", "apply", patch)
+			ap.Dir = scratch
+			if err := ap.Run(); err != nil {
+				results[i] = out{n, "skipped: patch does not apply to the current tree"}
+				return
+			}
+			tv := filepath.Join(tmp, "verif")
+			os.MkdirAll(tv, 0o755)
+			kf, _ := os.ReadFile(filepath.Join(verif, "known_findings.json"))
+			os.WriteFile(filepath.Join(tv, "known_findings.json"), kf, 0o644)
+			ch := exec.Command(exe, "check", pid, "--tier", "quick", "--repo", scratch, "--verif", tv)
+			ch.Env = append(os.Environ(), "ZAPVERIF_NO_SELFTEST=1")
+			o, _ := ch.CombinedOutput()
+			if strings.Contains(string(o), "VIOLATION property="+pid) {
+				results[i] = out{n, "detected"}
+			} else {
+				results[i] = out{n, "MISSED"}
+			}
+		}(i, n)
+	}
+	wg.Wait()
+	detected, skipped := 0, 0
+	var missed []string
+	var rows []string
+	for _, r := range results {
+		rows = append(rows, r.name+": "+r.status)
+		switch {
+		case r.status == "detected":
+			detected++
+		case strings.HasPrefix(r.status, "skipped"):
+			skipped++
+		default:
+			missed = append(missed, r.name)
+		}
+	}
+	res["selftest_mutants_applied"] = len(names) - skipped
+	res["selftest_mutants_detected"] = detected
+	res["selftest_mutants_skipped"] = skipped
+	res["selftest_missed"] = missed
+	res["selftest_results"] = rows
+	res["selftest_note"] = "each catalogued breaking change recorded for this property is applied to a scratch copy of the repository (not /repo) and the check must report a VIOLATION on it"
+	if len(missed) > 0 {
+		fmt.Printf("selftest: %d catalogued change(s) were NOT detected on a scratch copy: %v\n", len(missed), missed)
+	}
+	fmt.Printf("selftest %s: %d applied, %d detected, %d skipped\n", pid, len(names)-skipped, detected, skipped)
+	return res
 }
